@@ -347,6 +347,8 @@ def split_history(line):
         elif op.strip():
             ins.append(op)
             outs.append("")
+    if died and body.rstrip().endswith("||"):
+        died = None          # died while CONSTRUCTING the expressions of the next op: not the visitor's
     if outs:
         last = outs[-1]
         if died and "~" in last and not last.endswith("."):
